@@ -227,6 +227,11 @@ pub(crate) fn is_plain_value_safe(s: &str, yaml_12: bool, in_flow: bool) -> bool
     }
 
     if in_flow {
+        // A word `-` right before the `,` / `]` / `}` that ends the scalar is refused by the
+        // scanner ("plain scalar cannot start with '-' followed by ,[]{}").
+        if s.ends_with(" -") {
+            return false;
+        }
         // In flow style, commas and brackets/braces are structural.
         // In values, ':' is allowed, but '#' would start a comment so still disallow '#'.
         !contains_any_or_is_control(s, &[',', '[', ']', '{', '}', '#'])
